@@ -289,7 +289,7 @@ func mapGen(tier string, r *rng, emit func(string)) {
 	}
 	starts := [][]string{
 		{litOp("L")},
-		{litOp("L", keys[0], vals[0], keys[1], vals[1])}, // 1 then 1.0: same key
+		{litOp("L", keys[0], vals[0], keys[1], vals[1])},                                                                         // 1 then 1.0: same key
 		{litOp("L", keys[6], vals[0], keys[5], vals[0], keys[4], vals[0], keys[3], vals[0], keys[2], vals[0])},                   // NewMapSize(5): big from the start
 		{litOp("L", keys[0], vals[0], keys[1], vals[1], keys[1], vals[0], keys[0], vals[1], keys[2], vals[0])},                   // big with 2 pairs
 		{litOp("L", keys[6], vals[0], keys[5], vals[0], keys[4], vals[0], keys[3], vals[0], keys[2], vals[0], keys[0], vals[0])}, // 6 pairs
